@@ -27,14 +27,27 @@
    Run-time names: Name.Equal / Name.Substitute / Form.Substitute and the receive, call and cut
    transitions do not depend on the identifiers of initialised names (`subst_ident_irrelevant`,
    `receive_ident_irrelevant`, `call_ident_irrelevant`).
-   NOT proved here: invariance under renamings of bound variables that are capture-avoiding but not
-   injective on the identifiers of the whole program (`run_alpha_invariant`, a Definition), the full
-   simulation `step_sim_statement` (a Definition). *)
+   For TYPED configurations (spec/RtTyping.v — every reachable configuration of an accepted closed
+   program, by C01/C03's invariants) the step of the interpreter does not depend on the identifiers of
+   initialised names NOR of `self` names, for every choice in the three modes, including drop / split /
+   DUP / the GC request (`stepT_erase`, `stepT_sim`: this closes `step_sim_statement` of RenameSim.v for
+   typed configurations).  PER-DECLARATION renamings (not one injective map for the program): if every
+   function and every process body is renamed by ITS OWN injective identifier map (process names kept),
+   typed related configurations take related steps (`step_rel`), and accepted programs run in lock step
+   in the two polarized modes: same result kind, same printed labels in the same order, same live
+   processes (`run_decl_alpha`).
+   NOT proved here: renamings that map two binders of ONE declaration to one identifier (general alpha:
+   `run_alpha_invariant`, a Definition); that the typechecker's output for a per-declaration renamed
+   source is the per-declaration renamed output (the premise `decl_renamed p' q'` of run_decl_alpha is
+   about the annotated programs); the non-polarized mode for run_decl_alpha (step_rel covers it, the
+   run-time typing invariant along NP runs is a8's InvNP). *)
 From stdpp Require Import gmap strings.
 Require Import Grits.Base Grits.STypes Grits.Forms Grits.Subst Grits.Expand Grits.TcDeps Grits.TcTop Grits.Runtime.
 Require Import Grits.spec.Rename Grits.proofs.RenameTypes Grits.proofs.RenameSubst Grits.proofs.RenameTc
                Grits.proofs.RenameExt Grits.proofs.RenameRun Grits.proofs.RenameSim Grits.proofs.PermTc
-               Grits.proofs.RenameKeys Grits.proofs.C14Main Grits.proofs.C14Closed Grits.proofs.C14Examples.
+               Grits.proofs.RenameKeys Grits.proofs.C14Main Grits.proofs.C14Closed Grits.proofs.C14Examples
+               Grits.proofs.RenameSimT Grits.proofs.RenameAlpha Grits.proofs.C14Alpha.
+Require Grits.spec.RtTyping Grits.proofs.RtTheorems Grits.proofs.RtTcSyn Grits.proofs.DeterminismAll.
 Require Grits.spec.SynOk Grits.proofs.TypingVerdict Grits.proofs.DeclPerm Grits.proofs.VerdictInvariant.
 Require Import Coq.Sorting.Permutation.
 
@@ -152,6 +165,33 @@ Theorem call_ident_irrelevant : forall F fn args, Forall wf_fun F ->
   option_map nf (call_body F fn (map nn args)) = option_map nf (call_body F fn args).
 Proof. exact call_body_sim. Qed.
 
+(* typed configurations: identifiers of initialised AND self names are irrelevant, every transition *)
+Theorem stepT_erase : forall D F teq, RtTyping.funs_typed D F teq -> forall md Δ c ch, RtTyping.cfg_typed D F teq Δ c ->
+  nsres' (step md D F (ncfg' c) ch) = nsres' (step md D F c ch).
+Proof. exact RenameSimT.stepT_erase. Qed.
+
+Theorem stepT_sim : forall D F teq, RtTyping.funs_typed D F teq -> forall md Δ Δ' c c' ch,
+  RtTyping.cfg_typed D F teq Δ c -> RtTyping.cfg_typed D F teq Δ' c' -> cfgT_sim c c' ->
+  nsres' (step md D F c ch) = nsres' (step md D F c' ch).
+Proof. exact RenameSimT.stepT_sim. Qed.
+
+(* per-declaration injective renamings *)
+Theorem step_rel : forall D F F' teq, RtTyping.funs_typed D F teq -> RtTyping.funs_typed D F' teq -> Forall2 frel F F' ->
+  forall md Δ Δ' c c' ch, RtTyping.cfg_typed D F teq Δ c -> RtTyping.cfg_typed D F' teq Δ' c' -> crel c c' ->
+  srrel (step md D F c ch) (step md D F' c' ch).
+Proof. exact RenameAlpha.step_rel. Qed.
+
+Theorem run_decl_alpha : forall p q p' q' md pick fuel,
+  typecheck p = Accept p' -> typecheck q = Accept q' ->
+  RtTheorems.in_fragment p' -> RtTheorems.in_fragment q' ->
+  SynOk.prog_syn_ok p = true -> SynOk.prog_syn_ok q = true -> RtTcSyn.raw_ok p = true -> RtTcSyn.raw_ok q = true ->
+  DeterminismAll.all_src_b p = true -> DeterminismAll.all_src_b q = true ->
+  decl_renamed p' q' -> is_np md = false ->
+  kind_of (run_program fuel pick md q') = kind_of (run_program fuel pick md p') /\
+  labels (final_cfg (run_program fuel pick md q')) = labels (final_cfg (run_program fuel pick md p')) /\
+  pids (final_cfg (run_program fuel pick md q')) = pids (final_cfg (run_program fuel pick md p')).
+Proof. exact C14Alpha.run_decl_alpha. Qed.
+
 (* non-vacuity on a concrete program: the repaired F24 reproducer and a collision-rich renaming *)
 Theorem example_renamed_ast : option_map (rn_program ex_ren) (parsed ex_text) = parsed ex_text_renamed.
 Proof. exact ex_rename_parse. Qed.
@@ -182,6 +222,10 @@ Print Assumptions expand_kinds.
 Print Assumptions subst_ident_irrelevant.
 Print Assumptions receive_ident_irrelevant.
 Print Assumptions call_ident_irrelevant.
+Print Assumptions stepT_erase.
+Print Assumptions stepT_sim.
+Print Assumptions step_rel.
+Print Assumptions run_decl_alpha.
 Print Assumptions example_renamed_ast.
 Print Assumptions example_admissible.
 Print Assumptions example_runs.
